@@ -1,7 +1,7 @@
 (* C13 — the importer on file trees (Model/C13_Tree.v): the emitted blocks are closed under links and contain the root;
    every file reads back by its path from a store that holds them; directory links are the entry names, sorted. *)
 From V Require Import Base.Common Base.CommonLemmas Model.C13_Adder Model.C13_Check Model.C13_Spec Model.C13_Importer Model.C13_ImporterSpec
-                      Model.C13_Tree Model.C13_TreeSpec Proofs.C13_Importer Proofs.C13_ImporterLink Proofs.C13_ImporterThm.
+                      Model.C13_Tree Model.C13_TreeSpec Proofs.C13_Adder Proofs.C13_Theorems Proofs.C13_Importer Proofs.C13_ImporterLink Proofs.C13_ImporterThm.
 From Coq Require Import Sorting.Permutation.
 Open Scope N_scope.
 
@@ -220,3 +220,83 @@ Proof.
     + apply in_map_iff. exists (fst e, dag_of p (snd e)). split; [reflexivity|]. apply in_sort_links. apply in_map_iff. exists e. auto.
 Qed.
 End TStream.
+
+(* ---- end to end: a tree through the adder model ---- *)
+Section TDelivered.
+Variable cid_of enc_size : dnode -> N.
+Variable e : env.
+Variable p : iparams.
+Variable wrap hid : bool.
+Variable top mfs : name.
+Variable t : ftree.
+Hypothesis Hp : params_ok p.
+Let vis := visible hid t.
+Let seen := if wrap then Dir [(top, vis)] else vis.
+Let x := import_tree p wrap top mfs vis.
+Variable em' : list dnode.
+Hypothesis Hsame : same_blocks (import_emission x) em'.
+Hypothesis Hinj : dinjective_on em' cid_of.
+Hypothesis Huniq : names_unique seen = true.
+Let stream := tstream_of cid_of enc_size em'.
+Let root := cid_of (import_root x).
+
+Lemma import_root_dag : import_root x = dag_of p seen.
+Proof. subst x seen. unfold import_tree, import_root. destruct wrap; [reflexivity|]. destruct vis; reflexivity. Qed.
+
+Lemma tree_facts : dclosed em' /\ In (import_root x) em'.
+Proof. destruct (import_closed p Hp wrap top mfs vis) as [Hc Hr]. fold x in Hc, Hr. eapply same_blocks_closed; eauto. Qed.
+
+Lemma tree_readable_from delivered : (forall c, In c (cids_of stream) -> In c delivered) ->
+  forall path bs, In (path, bs) (files_of seen) ->
+  read_file (tstore_of cid_of em' delivered) (S (file_height p bs)) root path = Some bs.
+Proof.
+  intros Hdel path bs Hf. destruct tree_facts as [Hc Hr]. subst root. rewrite import_root_dag in *.
+  apply (tree_read_back_gen cid_of (tstore_of cid_of em' delivered) em' Hc); auto.
+  apply tstore_holds; [exact Hinj|]. intros n Hn. apply Hdel. subst stream. rewrite cids_of_tstream. apply in_map. exact Hn.
+Qed.
+
+Lemma tree_unsharded_l c tr : single_run e stream root = (ROk c, tr) ->
+  c = CData root /\ (exists al, ok_pins tr = [single_pin e root al]) /\
+  (forall y, reach stream root y -> In y (data_puts tr)) /\
+  forall path bs, In (path, bs) (files_of seen) ->
+    read_file (tstore_of cid_of em' (data_puts tr)) (S (file_height p bs)) root path = Some bs.
+Proof.
+  intros H. destruct tree_facts as [Hc Hr].
+  destruct (tstream_contract cid_of enc_size em' (import_root x) Hc Hr) as (Hstrict & Hlc & Hroot & _). cbv zeta in *.
+  fold stream in Hstrict, Hlc, Hroot. fold root in Hroot.
+  destruct (final_pins_single_l e stream root Hstrict c tr H) as (Hcc & al & Hpin & _).
+  destruct (delivered_equals_produced_single_l e stream root Hstrict c tr H) as (Hd & _).
+  split; [exact Hcc|]. split; [exists al; exact Hpin|]. split; [apply (delivered_closed_single_l e stream root Hstrict c tr Hlc Hroot H)|].
+  apply tree_readable_from. intros y Hy. rewrite Hd. exact Hy.
+Qed.
+
+Lemma tree_sharded_l c tr : 0 < e_maxlinks e -> shard_run e stream root = (ROk c, tr) ->
+  c = CData root /\ (exists q, In q (ok_pins tr) /\ pcid q = CData root /\ pty q = TMeta) /\
+  (forall y, reach stream root y -> In y (data_puts tr)) /\
+  forall path bs, In (path, bs) (files_of seen) ->
+    read_file (tstore_of cid_of em' (data_puts tr)) (S (file_height p bs)) root path = Some bs.
+Proof.
+  intros Hmax H. destruct tree_facts as [Hc Hr].
+  destruct (tstream_contract cid_of enc_size em' (import_root x) Hc Hr) as (Hstrict & Hlc & Hroot & Hsz). cbv zeta in *. specialize (Hsz Hinj).
+  fold stream in Hstrict, Hlc, Hroot, Hsz. fold root in Hroot.
+  destruct (final_pins_sharded_l e stream root Hstrict Hmax Hsz c tr H) as (Hcc & xs & _ & Hpin & _).
+  destruct (delivered_equals_produced_l e stream root Hstrict Hmax Hsz c tr H) as (Hd & _).
+  split; [exact Hcc|]. split.
+  { exists (meta_pin e root xs). split; [rewrite Hpin; apply in_or_app; right; right; left; reflexivity|]. split; reflexivity. }
+  split; [apply (delivered_closed_l e stream root Hstrict Hmax Hsz c tr Hlc Hroot H)|].
+  apply tree_readable_from. intros y Hy. rewrite Hd. apply in_dedup. exact Hy.
+Qed.
+End TDelivered.
+
+(* the links of a directory node: the names of its entries, each once, sorted; each link goes to the final node of that entry *)
+Lemma dir_links_named_l p es :
+  exists ls, dag_of p (Dir es) = DDir ls /\ Permutation (map fst ls) (map fst es) /\ sorted_names (map fst ls) /\
+    forall n d, In (n, d) ls <-> exists c, In (n, c) es /\ d = dag_of p c.
+Proof.
+  eexists. split; [reflexivity|]. split; [|split].
+  - rewrite (Permutation_map fst (sort_links_perm _)), map_map. cbn [fst]. apply Permutation_refl.
+  - apply sort_links_sorted.
+  - intros n d. rewrite in_sort_links, in_map_iff. split.
+    + intros ([n' c] & E & Hin). cbn in E. injection E as <- <-. eauto.
+    + intros (c & Hin & ->). exists (n, c). auto.
+Qed.
